@@ -145,3 +145,53 @@ func VerifP_C03_DeterminismAtPos(i int) {
 	}
 	verifReach("end")
 }
+
+// C03 over several files: two files contribute different implied origins for the same origin
+// address (a module call copied into a second file with another source), a third file writes the
+// reference; collected origins, targets and the lookups must not depend on the order in which the
+// files of the path are visited.
+func VerifH_C03_Determinism_MultiFile() {
+	str := schema.LiteralType{Type: cty.String}
+	addr := func(steps ...string) lang.Address {
+		a := lang.Address{lang.RootStep{Name: steps[0]}}
+		for _, s := range steps[1:] {
+			a = append(a, lang.AttrStep{Name: s})
+		}
+		return a
+	}
+	dep := func(src, target string) (schema.SchemaKey, *schema.BodySchema) {
+		return schema.NewSchemaKey(schema.DependencyKeys{Attributes: []schema.AttributeDependent{{Name: "source", Expr: schema.ExpressionValue{Static: cty.StringVal(src)}}}}),
+			&schema.BodySchema{ImpliedOrigins: schema.ImpliedOrigins{{OriginAddress: addr("module", "m", "out"), TargetAddress: addr("output", target), Path: lang.Path{Path: "mods/" + target}, Constraints: schema.Constraints{ScopeId: lang.ScopeId("output")}}}}
+	}
+	k1, b1 := dep("./m", "one")
+	k2, b2 := dep("./n", "two")
+	bs := &schema.BodySchema{
+		Attributes: map[string]*schema.AttributeSchema{"use": {Constraint: schema.AnyExpression{OfType: cty.DynamicPseudoType}, IsOptional: true}},
+		Blocks: map[string]*schema.BlockSchema{
+			"module": {
+				Labels: []*schema.LabelSchema{{Name: "name"}},
+				Address: &schema.BlockAddrSchema{Steps: schema.Address{schema.StaticStep{Name: "module"}, schema.LabelStep{Index: 0}}, AsReference: true, ScopeId: lang.ScopeId("module")},
+				Body:          &schema.BodySchema{Attributes: map[string]*schema.AttributeSchema{"source": {Constraint: str, IsOptional: true, IsDepKey: true}}},
+				DependentBody: map[schema.SchemaKey]*schema.BodySchema{k1: b1, k2: b2},
+			},
+		},
+	}
+	files := map[string]*hcl.File{
+		"a.tf": verifParseHCL("module \"m\" {\n  source = \"./m\"\n}\n", "a.tf"),
+		"b.tf": verifParseHCL("module \"m\" {\n  source = \"./n\"\n}\n", "b.tf"),
+		"c.tf": verifParseHCL("use = module.m.out\n", "c.tf"),
+	}
+	d := verifDecoder(bs, files)
+	o0, _ := d.CollectReferenceOrigins()
+	t0, _ := d.CollectReferenceTargets()
+	for k := 0; k < verifRuns(); k++ {
+		verifPermuteMaps(1 + verifChoice("mode", 2))
+		o1, _ := d.CollectReferenceOrigins()
+		t1, _ := d.CollectReferenceTargets()
+		verifPermuteMaps(0)
+		verifAssert(verifDeepEqual(o1, o0), "C03:origins-independent-of-file-visit-order")
+		verifAssert(verifDeepEqual(t1, t0), "C03:targets-independent-of-file-visit-order")
+	}
+	verifAssert(len(o0) == 3, "C10:one-local-and-two-implied-origins")
+	verifReach("end")
+}
